@@ -18,7 +18,7 @@ _tag = "repo" if REPO == "/repo" else "alt-" + hashlib.sha1(REPO.encode()).hexdi
 BUILD = os.path.join(VERIF, "build", _tag)
 NCPU = min(16, os.cpu_count() or 4)
 
-UBSAN = "signed-integer-overflow,shift,bounds,null,pointer-overflow,integer-divide-by-zero,return,unreachable,vla-bound,object-size,bool,enum,nonnull-attribute,returns-nonnull-attribute"
+UBSAN = "signed-integer-overflow,shift,bounds,null,pointer-overflow,integer-divide-by-zero,return,unreachable,vla-bound,object-size,bool,enum"
 PROFILES = {
     "asan": ("clang", ["-O1", "-g", "-fsanitize=address," + UBSAN, "-fsanitize-recover=all",
                        "-fno-omit-frame-pointer", "-fno-optimize-sibling-calls", "-fno-builtin"]),
